@@ -39,6 +39,8 @@ OPS = [('run', k) for k in PROGS] + [
     ('set_input', ['i1', 'i2']), ('set_input', 'solo'), ('queue_input', 'q1', 'q2'), ('clear_input',),
     ('set_input_noclear', ['k1']), ('set_input', []),
     ('run_inputs', 'read2', []), ('run_inputs', 'read1', ['r1', 'r2']), ('call_inputs', 'rd', ''),
+    ('set_input', 7), ('set_input_tuple', ('t1', 't2')), ('set_input_callable',), ('run_before_after', 'read1'),
+    ('call_target', 'pr'),
 ]
 PROMPTS = ['', 'p>', 'one?', 'two?']
 CAL = {}
@@ -70,6 +72,10 @@ def _fresh():
     sb_cmds.clear_input()
 
 
+def CALLABLE(prompt):
+    return 'c<' + prompt + '>'
+
+
 class Model:
     def __init__(self):
         self.raw = ""
@@ -84,8 +90,11 @@ class Model:
         used = []
 
         def inp(prompt=""):
-            out.write(CAL[prompt])
-            v = self.inputs.pop(0) if self.inputs else CAL['__default__']
+            if callable(self.inputs):
+                v = self.inputs(prompt)          # a callable source answers by itself (and echoes nothing)
+            else:
+                out.write(CAL[prompt])
+                v = self.inputs.pop(0) if self.inputs else CAL['__default__']
             used.append(v)
             return v
         env = self.ns
@@ -119,11 +128,27 @@ class Model:
         elif k == 'clear_output':
             self.raw = ""
             self.lines = []
+        elif k == 'set_input' and isinstance(op[1], int):
+            self.inputs = [str(op[1])]
+        elif k == 'set_input_tuple':
+            self.inputs = list(op[1])
+        elif k == 'set_input_callable':
+            self.inputs = CALLABLE
+        elif k == 'run_before_after':
+            self.execute("print('B')")
+            self.execute(PROGS[op[1]])
+            self.execute("print('A')")
+        elif k == 'call_target':
+            self.execute("kept = %s()" % op[1])
         elif k == 'set_input':
             self.inputs = [op[1]] if isinstance(op[1], str) else list(op[1])
         elif k == 'set_input_noclear':
+            if callable(self.inputs):
+                self.inputs = []
             self.inputs.extend(op[1])
         elif k == 'queue_input':
+            if callable(self.inputs):
+                self.inputs = []
             self.inputs.extend(op[1:])
         elif k == 'clear_input':
             self.inputs = []
@@ -143,6 +168,16 @@ def apply_real(op):
         sb_cmds.call(op[1], inputs=op[2])
     elif k == 'clear_output':
         sb_cmds.clear_output()
+    elif k == 'set_input' and isinstance(op[1], int):
+        sb_cmds.set_input(op[1])
+    elif k == 'set_input_tuple':
+        sb_cmds.set_input(tuple(op[1]))
+    elif k == 'set_input_callable':
+        sb_cmds.set_input(CALLABLE)
+    elif k == 'run_before_after':
+        sb_cmds.get_sandbox().run(PROGS[op[1]], before="print('B')", after="print('A')")
+    elif k == 'call_target':
+        sb_cmds.call(op[1], target='kept')
     elif k == 'set_input':
         sb_cmds.set_input(op[1] if isinstance(op[1], str) else list(op[1]))
     elif k == 'set_input_noclear':
@@ -153,7 +188,7 @@ def apply_real(op):
         sb_cmds.clear_input()
 
 
-EXEC = ('run', 'call', 'eval', 'run_inputs', 'call_inputs')
+EXEC = ('run', 'call', 'eval', 'run_inputs', 'call_inputs', 'run_before_after', 'call_target')
 
 
 def make_body(max_ops):
@@ -176,7 +211,8 @@ def make_body(max_ops):
             m.apply(op)
             real_raw = sb_cmds.get_raw_output()
             real_lines = list(sb_cmds.get_output())
-            real_inputs = list(sb_cmds.get_input())
+            real_inputs = sb_cmds.get_input()
+            real_inputs = real_inputs if callable(real_inputs) else list(real_inputs)
             sig = None
             if real_raw != m.raw:
                 sig = {'symptom': 'raw output differs'}
@@ -200,7 +236,7 @@ def make_body(max_ops):
             if sig:
                 ctx.fail(sig, history=hist[:i + 1], **det)
                 break
-        canon = repr((m.raw, m.lines, m.inputs, len(m.ctx)))
+        canon = repr((m.raw, m.lines, 'callable' if callable(m.inputs) else m.inputs, len(m.ctx)))
         ctx.observe(canon)
         ctx.set_sample(hist)
         texts = [t for t, _ in m.ctx]
